@@ -10,13 +10,14 @@
  * compute the same function, and they write nothing but their output.  What is NOT claimed:
  * that this function is the BLAKE3 compression function (units compress_spec_* are about that).
  *
- *   VERIF_UF_PRE  (cv[8], block[64], block_len, counter, flags) -> 512 bit  compress_pre: the 16 state words
- *                                                       after the rounds, before the feed-forward
- *   VERIF_UF_CIP  (same) -> 256 bit  = lo ^ hi               blake3_compress_in_place*   (lo, hi = the two
- *   VERIF_UF_XOF  (same) -> 512 bit  = (lo ^ hi, hi ^ cv)    blake3_compress_xof*, and    halves of PRE)
+ *   VERIF_UF_CIP  (cv[8], block[64], block_len, counter, flags) -> 256 bit  blake3_compress_in_place*
+ *   VERIF_UF_XOF  (cv[8], block[64], block_len, counter, flags) -> 512 bit  blake3_compress_xof*, and
  *                                                       block b of blake3_xof_many* with counter + b
- *                 (the feed-forward is the part of the compression that lives in the two portable kernel
- *                  functions themselves; units blake3_compress_{in_place,xof}_portable_fn check it)
+ *   VERIF_UF_PRE  (same) -> 512 bit   compress_pre (the 16 state words after the 7 rounds), used ONLY in the two
+ *                 units blake3_compress_{in_place,xof}_portable_fn, which check the feed-forward that the two
+ *                 portable kernels implement themselves: cv' = lo ^ hi, out = (lo ^ hi, hi ^ cv).  (Everywhere
+ *                 else the portable kernels are, like the SIMD ones, the functions CIP / XOF: writing CIP and XOF
+ *                 as expressions over PRE made the nested parent formulas of finalize grow exponentially.)
  *   VERIF_UF_ROW  (row[64*blocks] zero-padded to 1024 bytes, key[8], counter, flags, flags_start,
  *                  flags_end, blocks) -> 256 bit       one input of blake3_hash_many* (blocks <= 16)
  *
@@ -33,16 +34,22 @@ typedef unsigned __CPROVER_bitvector[512] verif_bv512;
 
 verif_bv512 __CPROVER_uninterpreted_blake3_pre(verif_bv256 cv, verif_bv512 block, uint8_t block_len,
                                                uint64_t counter, uint8_t flags);
-/* on VALUES (cv as 256 bit, block as 512 bit): the state after the rounds, and the two feed-forwards */
+verif_bv256 __CPROVER_uninterpreted_blake3_cip(verif_bv256 cv, verif_bv512 block, uint8_t block_len,
+                                               uint64_t counter, uint8_t flags);
+verif_bv512 __CPROVER_uninterpreted_blake3_xof(verif_bv256 cv, verif_bv512 block, uint8_t block_len,
+                                               uint64_t counter, uint8_t flags);
+/* on VALUES (cv as 256 bit, block as 512 bit) */
 #define VERIF_PRE_V(cv, blk, bl, ctr, fl)                                                 \
   __CPROVER_uninterpreted_blake3_pre((verif_bv256)(cv), (verif_bv512)(blk), (uint8_t)(bl), (uint64_t)(ctr), (uint8_t)(fl))
+#define VERIF_CIP_V(cv, blk, bl, ctr, fl)                                                 \
+  __CPROVER_uninterpreted_blake3_cip((verif_bv256)(cv), (verif_bv512)(blk), (uint8_t)(bl), (uint64_t)(ctr), (uint8_t)(fl))
+#define VERIF_XOF_V(cv, blk, bl, ctr, fl)                                                 \
+  __CPROVER_uninterpreted_blake3_xof((verif_bv256)(cv), (verif_bv512)(blk), (uint8_t)(bl), (uint64_t)(ctr), (uint8_t)(fl))
+/* the feed-forward over the state p after the rounds (lo = words 0..7, hi = words 8..15) */
 #define VERIF_LO(p) ((verif_bv256)(p))
 #define VERIF_HI(p) ((verif_bv256)((p) >> 256))
-#define VERIF_CIP_V(cv, blk, bl, ctr, fl)                                                 \
-  (VERIF_LO(VERIF_PRE_V(cv, blk, bl, ctr, fl)) ^ VERIF_HI(VERIF_PRE_V(cv, blk, bl, ctr, fl)))
-#define VERIF_XOF_V(cv, blk, bl, ctr, fl)                                                 \
-  ((verif_bv512)VERIF_CIP_V(cv, blk, bl, ctr, fl) |                                       \
-   ((verif_bv512)(VERIF_HI(VERIF_PRE_V(cv, blk, bl, ctr, fl)) ^ (verif_bv256)(cv)) << 256))
+#define VERIF_FF_CIP(p) (VERIF_LO(p) ^ VERIF_HI(p))
+#define VERIF_FF_XOF(p, cv) ((verif_bv512)VERIF_FF_CIP(p) | ((verif_bv512)(VERIF_HI(p) ^ (verif_bv256)(cv)) << 256))
 verif_bv256 __CPROVER_uninterpreted_blake3_row(
     verif_bv512, verif_bv512, verif_bv512, verif_bv512, verif_bv512, verif_bv512, verif_bv512, verif_bv512,
     verif_bv512, verif_bv512, verif_bv512, verif_bv512, verif_bv512, verif_bv512, verif_bv512, verif_bv512,
